@@ -2034,6 +2034,9 @@ class GitPreviewTree(PreviewTree, GitTree):
         if trans_id in self._transform._removed_id:
             return False
         orig_path = self._transform.tree_path(trans_id)
+        if orig_path is None:
+            # A new path that was never scheduled for versioning.
+            return False
         return self._transform._tree.is_versioned(orig_path)
 
     def iter_entries_by_dir(self, specific_files=None, recurse_nested=False):
